@@ -70,6 +70,9 @@ structure Obs where
   order : List Nat := []
   inflightOp : Option Nat := none
   inflightOps : List Nat := []
+  inflightN : Nat := 0
+  isr : List Nat := []
+  minISR : Int := 0
   /-- the state part of the line, verbatim (for "nothing changed" checks) -/
   stateText : String := ""
   deriving Repr, Inhabited
@@ -92,6 +95,16 @@ def judgeConsistent (o : Obs) : Bool :=
 /-- the committed watermark never decreases within one metadata fence -/
 def judgeHWMono (prev cur : Obs) : Bool :=
   !(prev.epoch == cur.epoch && prev.lepoch == cur.lepoch && cur.hw < prev.hw)
+
+/-- the MinISR-th highest match among the ISR members, recomputed from the printed
+    progress table (none when MinISR is not in 1..|ISR|) -/
+def quorumMatch (o : Obs) : Option Nat :=
+  if o.minISR ≤ 0 ∨ (o.isr.length : Int) < o.minISR then none else
+  (sortDesc (o.isr.map (getP o.progress)))[(o.minISR - 1).toNat]?
+
+/-- outside a quorum receipt, HW moves only to the MinISR-th highest ISR match -/
+def judgeHWQuorum (isQuorumReceipt : Bool) (prev cur : Obs) : Bool :=
+  isQuorumReceipt || cur.hw ≤ prev.hw || quorumMatch cur == some cur.hw
 
 /-- every reply answers a waiter that was pending before the event and is not pending
     after it, no op is answered twice by one decision (⇒ at most one answer per admission
